@@ -1,7 +1,7 @@
 (* Props/C10.v — C10: the JSON parser (json/parse.go).
    Statements only; each is closed by [exact] of a lemma proved in coq/theories/Json/. *)
 From Verif Require Import Common.Base Common.Lx Json.Model Json.Lex Json.Spec Json.Grammar Json.Proofs Json.Trace
-  Json.GrammarProofs Json.AcceptLex Json.Accept Json.Sticky Json.Rejects.
+  Json.GrammarProofs Json.AcceptLex Json.Accept Json.Sticky Json.Rejects Json.Stuck.
 
 (* MAIN THEOREM.  Every document of the RFC 8259 grammar (Json/Grammar.v: whitespace explicit at the six
    structural positions; all escape and number forms) is parsed to the end of the input without a parse
@@ -175,3 +175,15 @@ Theorem json_error_at_illegal_byte :
     rejected_at p (len a + len tok + len lead).
 Proof. exact error_at_illegal_byte_proof. Qed.
 Print Assumptions json_error_at_illegal_byte.
+
+(* The parse-error clause of stickiness where it does hold: in the situations of the listed rejections
+   (stuck_at: mismatched or unopened closer, missing comma, stray comma, non-string key other than an opening
+   bracket, illegal byte) every further call returns ErrorGrammar again, with the error at the same offset and
+   the state stack unchanged.  Missing: the error after a missing colon (refuted above). *)
+Theorem json_parse_error_sticky_partial :
+  forall n p a tok s, cur3 (pz p) a tok s -> stuck_at (pst p) (pneed p) (prd p) s ->
+    exists tr, trace n p = Some tr /\ length tr = n /\
+      Forall (fun up => fst up = (G_Error, None) /\ perr (snd up) = Some (len a + len tok) /\
+                        pst (snd up) = pst p) tr.
+Proof. exact parse_error_stuck_proof. Qed.
+Print Assumptions json_parse_error_sticky_partial.
